@@ -1,7 +1,7 @@
 //go:build verif
 
 //verif:bounds page-table operations against a software MMU: physical memory of K frames (quick 8); every allocatable frame starts full of junk (one arbitrary word per frame); a minimal active root (recursive slot 511); N operations (quick 2) each Map or Unmap of a page from a menu of 7 representative pages (same leaf table, shared level-2 / level-1 tables only, high canonical half, last slots before the recursive window, the temporary-mapping page), symbolic frame < 2^40 and any subset of the defined flag bits; frame allocator failing at a symbolic call; the result is checked for an arbitrary probe address
-//verif:assumes the recursive-mapping addresses produced by walk are translated by an independent software MMU over the physical-memory region (ptePtrFn / nextAddrFn seams); physical memory sits at its physical address (A-ADDR); TLB is a log, not a cache
+//verif:assumes the recursive-mapping addresses produced by walk are translated by an independent software MMU over the physical-memory region (ptePtrFn / nextAddrFn seams); physical memory sits at its physical address (A-ADDR); TLB is a log (ops) or, as a second mode of the inactive-space harness, a cache of the recursive-window translations that only explicit invalidation or a root switch empties
 //verif:override github.com/ProjectSerenity/firefly/kernel/kfmt.Printf vfNoPrintf
 package vmm
 
@@ -29,6 +29,10 @@ type vfMachine struct {
 	flushes  [8]uintptr
 	nflush   int
 	unmapped bool // the kernel touched an address the MMU cannot translate
+	// optional TLB model: translations of page-table pages reached through the recursive window are cached on
+	// first use and dropped only by flushTLBEntryFn for that very page or by a root switch, as a real TLB may do
+	tlbCache bool
+	tlb      map[uintptr]uintptr
 }
 
 var vfM *vfMachine
@@ -97,17 +101,31 @@ func vfBoot(k int) *vfMachine {
 		return f, nil
 	})
 	activePDTFn = func() uintptr { return m.cr3 }
-	switchPDTFn = func(a uintptr) { m.cr3 = a }
+	m.tlb = map[uintptr]uintptr{}
+	switchPDTFn = func(a uintptr) {
+		m.cr3 = a
+		m.tlb = map[uintptr]uintptr{}
+	}
 	flushTLBEntryFn = func(a uintptr) {
 		if m.nflush < len(m.flushes) {
 			m.flushes[m.nflush] = a
 		}
 		m.nflush++
+		delete(m.tlb, a&^(mm.PageSize-1))
 	}
 	ptePtrFn = func(entryAddr uintptr) unsafe.Pointer {
+		vpage := entryAddr &^ (mm.PageSize - 1)
+		if m.tlbCache {
+			if ppage, hit := m.tlb[vpage]; hit {
+				return unsafe.Pointer(ppage + entryAddr&(mm.PageSize-1))
+			}
+		}
 		pa, ok := vfMMU(m.cr3, entryAddr)
 		zzverif.Assert(ok, "page-table walk only touches addresses the MMU can translate")
 		zzverif.Assume(ok)
+		if m.tlbCache {
+			m.tlb[vpage] = pa &^ (mm.PageSize - 1)
+		}
 		return unsafe.Pointer(pa)
 	}
 	// Map derives the next table's address from the entry pointer (entry address << 9 in the recursive window).
@@ -233,6 +251,12 @@ func Verif_C04_ops() {
 //verif:split 4
 func Verif_C04_inactive() {
 	m := vfBoot(zzverif.Param("frames", 8, 12))
+	// second mode: the MMU caches the translations of the recursive-window pages it has used (a real TLB may keep
+	// them until they are invalidated). KF-C04-1: PageDirectoryTable.Map/Unmap swap the recursive slot of the active
+	// root and then invalidate the entry's own (identity) address instead of the recursive-window pages whose
+	// translation changed, so the inner Map walks the *active* space's tables through stale translations.
+	m.tlbCache = zzverif.Choice("tlb-caches", 2) == 1
+	zzverif.Known("KF-C04-1", m.tlbCache)
 	// something is already mapped in the active space
 	p0 := vfPage("page0")
 	f0 := mm.Frame(zzverif.U64("frame0") & (1<<40 - 1))
